@@ -244,6 +244,13 @@ func autosaveGen(tier string, r *rng, emit func(string)) {
 	delProg := "x=1\ndel(x)\n"
 	dc, ds := autosaveReference(delProg)
 	news = append(news, state{delProg, dc, ds})
+	// a state with LARGE values (1 KiB .. just under the default save limit) between small ones: however the writer splits a binding
+	// into writes, a failure of ANY write must leave the old file (seeded change C18-7: large values written in four pieces with
+	// only the last piece's error kept).  For these states every write index up to 8 beyond the number of bindings fails once.
+	bigProg := "a=1\nbig=\"x\"*2000\nm=[7]*600\nz=2\n"
+	bc, bs := autosaveReference(bigProg)
+	news = append(news, state{bigProg, bc, bs})
+	bigIdx := len(news) - 1
 	for oi, o := range olds {
 		oldF := "none"
 		if o.saved {
@@ -285,6 +292,12 @@ func autosaveGen(tier string, r *rng, emit func(string)) {
 				cs(fmt.Sprintf("fail:%d:%d", j, keep))
 			}
 			cs(fmt.Sprintf("fail:%d:0", m+1)) // beyond the last write: no failure happens
+			if ni == bigIdx {
+				for j := 1; j <= m+8; j++ {
+					cs(fmt.Sprintf("fail:%d:0", j))
+					cs(fmt.Sprintf("fail:%d:5", j))
+				}
+			}
 		}
 	}
 	autosaveHistGen(tier, r, emit) // the interrupted save is not the first thing the process does: autosave_hist.go
